@@ -10,6 +10,8 @@ verus! {
 //@item src/resources/asn.rs :: pub struct Asn pubfields keepderive=Clone,Copy,Eq,Ord,PartialEq,PartialOrd
 //@item src/resources/asn.rs :: pub struct SmallAsnSet pubfields
 
+pub mod lem {
+use super::*;
 // ---- specification vocabulary ------------------------------------------------
 pub open spec fn nondecreasing(s: Seq<Asn>) -> bool {
     forall|i: int, j: int| 0 <= i < j < s.len() ==> s[i].0 <= s[j].0
@@ -35,29 +37,47 @@ pub assume_specification<T: Ord> [ <[T]>::sort ] (s: &mut [T])
         forall|i: int, j: int| 0 <= i < j < final(s)@.len() ==>
             (#[trigger] final(s)@[i]).cmp_spec(#[trigger] &final(s)@[j]) != Ordering::Greater;
 
+pub assume_specification<T: Ord> [ <[T]>::sort_unstable ] (s: &mut [T])
+    ensures
+        final(s)@.to_multiset() == old(s)@.to_multiset(),
+        forall|i: int, j: int| 0 <= i < j < final(s)@.len() ==>
+            (#[trigger] final(s)@[i]).cmp_spec(#[trigger] &final(s)@[j]) != Ordering::Greater;
+
+pub assume_specification<T: PartialOrd> [ <[T]>::is_sorted ] (s: &[T]) -> (r: bool)
+    ensures r == (forall|i: int| 0 <= i < s@.len() - 1 ==>
+            (#[trigger] s@[i]).partial_cmp_spec(&s@[i + 1]) == Some(Ordering::Less) || s@[i].partial_cmp_spec(&s@[i + 1]) == Some(Ordering::Equal));
+
 pub assume_specification<T: PartialEq, A: core::alloc::Allocator> [ Vec::<T, A>::dedup ] (v: &mut Vec<T, A>)
     ensures final(v)@ == dedup_spec(old(v)@);
 
 /// derive(PartialEq, Eq, PartialOrd, Ord) on `struct Asn(u32)` is the order / equality of the
 /// wrapped u32.  Assumed here; proved on the compiled type by Kani harness asn_ord_is_u32.
 #[verifier::external_body]
-pub proof fn axiom_asn_derived_ord()
+pub broadcast proof fn axiom_asn_derived_ord()
     ensures
+        #[trigger] <Asn as OrdSpec>::obeys_cmp_spec(), #[trigger] <Asn as PartialEqSpec>::obeys_eq_spec(),
         forall|a: Asn, b: Asn| #[trigger] a.cmp_spec(&b) == (if a.0 < b.0 { Ordering::Less } else if a.0 == b.0 { Ordering::Equal } else { Ordering::Greater }),
         forall|a: Asn, b: Asn| #[trigger] a.eq_spec(&b) == (a.0 == b.0),
 {}
+/// a sequence sorted by Ord of Asn is non-decreasing in the numbers
+pub broadcast proof fn lemma_sorted_is_nondecreasing(s: Seq<Asn>)
+    requires forall|i: int, j: int| 0 <= i < j < s.len() ==> (#[trigger] s[i]).cmp_spec(#[trigger] &s[j]) != Ordering::Greater,
+    ensures #[trigger] nondecreasing(s),
+{
+    broadcast use axiom_asn_derived_ord;
+}
 
 // ---- lemmas --------------------------------------------------------------------
-proof fn lemma_dedup_sorted(s: Seq<Asn>)
+pub broadcast proof fn lemma_dedup_sorted(s: Seq<Asn>)
     requires nondecreasing(s),
     ensures
-        strictly_increasing(dedup_spec(s)),
+        strictly_increasing(#[trigger] dedup_spec(s)),
         dedup_spec(s).to_set() == s.to_set(),
         s.len() > 0 ==> dedup_spec(s).len() > 0 && dedup_spec(s).last() == s.last(),
         s.len() == 0 ==> dedup_spec(s).len() == 0,
     decreases s.len(),
 {
-    axiom_asn_derived_ord();
+    broadcast use axiom_asn_derived_ord;
     if s.len() <= 1 {
     } else {
         let p = s.drop_last();
@@ -122,8 +142,8 @@ proof fn lemma_dedup_sorted(s: Seq<Asn>)
     }
 }
 
-proof fn lemma_multiset_same_set(a: Seq<Asn>, b: Seq<Asn>)
-    requires a.to_multiset() == b.to_multiset(),
+pub broadcast proof fn lemma_multiset_same_set(a: Seq<Asn>, b: Seq<Asn>)
+    requires #[trigger] a.to_multiset() == #[trigger] b.to_multiset(),
     ensures a.to_set() == b.to_set(),
 {
     broadcast use vstd::seq_lib::group_to_multiset_ensures;
@@ -136,6 +156,10 @@ proof fn lemma_multiset_same_set(a: Seq<Asn>, b: Seq<Asn>)
     assert(a.to_set() =~= b.to_set());
 }
 
+} // mod lem
+pub use lem::*;
+broadcast use {lem::axiom_asn_derived_ord, lem::lemma_sorted_is_nondecreasing, lem::lemma_dedup_sorted, lem::lemma_multiset_same_set};
+
 impl SmallAsnSet {
     //@fn src/resources/asn.rs :: impl iter::FromIterator<Asn> for SmallAsnSet :: from_iter
     //@sigsub R12 "<T: IntoIterator<Item = Asn>>(iter: T)" "(iter: Vec<Asn>)"
@@ -145,14 +169,6 @@ impl SmallAsnSet {
             strictly_increasing(r.0@),
             r.0@.to_set() == iter@.to_set(),
     //@/spec
-    //@ghost after "res.0.sort();"
-        proof {
-            axiom_asn_derived_ord();
-            lemma_multiset_same_set(res.0@, iter@);
-            assert(nondecreasing(res.0@));
-            lemma_dedup_sorted(res.0@);
-        }
-    //@/ghost
     //@end
 }
 
